@@ -78,9 +78,16 @@ LOAD_FAIL_OPS = ("get", "getd", "getitem", "in", "has_key", "len", "bool",
 
 def plan(rng, tier):
     fam = rng.choice(OBJ_FAMS)
+    nat = rng.random() < 0.05
+    if nat:
+        # the memory half of the property has no object in it: the fs
+        # family's native vectors and their packed form (toBytes / fromBytes)
+        fam = "fs"
     hk = fam[0] == "O" and rng.random() < 0.6
     cfg = common.draw_cfg(rng, fams=[fam], impls=("c",), hk=hk,
-                          p_stored=0.3, p_default_sizes=0.03)
+                          p_stored=0.3, p_default_sizes=0.03,
+                          kinds=["Bucket", "Bucket", "BTree"] if nat
+                          else None)
     if cfg["internal"] == 2 and rng.random() < 0.7:
         cfg["internal"] = rng.choice([3, 4])
     cfg["dom"]["nk"] = rng.choice([8, 12, 16, 24, 32])
